@@ -230,7 +230,15 @@ impl Property for C08 {
                 });
             }
         }
-        // Raw probe lines at the very end.
+        // Raw probe lines at the very end: every allocated integer and array element, then a few
+        // random pieces.
+        if let Some(l) = raw.alloc_probe_line() {
+            lines.push(vec![Op::Raw(l)]);
+            meta.push(LineMeta {
+                conds: raw.open_conditionals() as u8,
+                streams: raw.open_streams() as u8,
+            });
+        }
         for _ in 0..3 {
             let mut ops = vec![];
             for _ in 0..3 {
